@@ -1988,6 +1988,26 @@ def _isfinite(interp, v, *a, **k):
         interp.raise_(type(ex), *ex.args)
 
 
+def _math_isfinite(interp, v, *a, **k):
+    """math.isfinite: the argument is converted with float(); an int beyond the float range raises OverflowError, text and
+    None raise TypeError, a complex number raises TypeError."""
+    if isinstance(v, SInt):
+        lim = tm.const(2 ** 1024 - 2 ** 970)      # the first magnitude that float() rounds to overflow
+        if interp.ctx.branch(tm.mk_and(tm.mk_lt(tm.mk_neg(lim), v.t), tm.mk_lt(v.t, lim))):
+            return True
+        interp.raise_(OverflowError, 'int too large to convert to float')
+    if isinstance(v, (SReal, SBool)):
+        return _isfinite(interp, v)
+    if isinstance(v, (SStr, SDec, SErr, SComplex)) or v is None:
+        interp.raise_(TypeError, 'must be real number')
+    if is_sym(v):
+        raise Unsupported('math.isfinite of %r' % (v,))
+    try:
+        return math.isfinite(v)
+    except Exception as ex:
+        interp.raise_(type(ex), *ex.args)
+
+
 def _register_numpy():
     import numpy as np
     from .values import ArrVal
@@ -2033,7 +2053,7 @@ def _register_numpy():
         return SReal(r)
     BUILTINS[np.random.rand] = _rand
     BUILTINS[np.isfinite] = _isfinite
-    BUILTINS[math.isfinite] = _isfinite
+    BUILTINS[math.isfinite] = _math_isfinite
 
     def _np_power(interp, x, y):
         """np.power on python floats: like ** but never raises: nan for negative ** non-integer,
